@@ -421,7 +421,7 @@ def check_delta_headers(ctx, rule="R42.delta"):
                         stream = stream + [0xEE] * 3          # bytes of whatever follows in the page
                         heap0 = {("in", i): b for i, b in enumerate(stream)}
                         ret, ev, heap = sem.run(P, fn, [Ptr("in", 0, 1), len(stream), Ptr("out", 0, bits // 8), count, Ptr("used", 0, 8)], heap0=heap0,
-                                                hooks={}, single=True, max_forks=8, budget=2000000, inline_depth=6)
+                                                hooks={}, single=True, max_forks=8, budget=2000000, inline_depth=9)
                         done += 1
                         label = "%d values, first %d, min delta %d, unused width bytes %#x" % (count, first, md, junk)
                         if bad is None and ret != 0:
@@ -595,7 +595,7 @@ def check_delta_decoder(ctx, rule="R42.delta"):
                     data = stream + [0xEE] * 3
                     heap0 = {("in", i): b for i, b in enumerate(data)}
                     ret, ev, heap = sem.run(P, fn, [Ptr("in", 0, 1), len(data), Ptr("out", 0, bits // 8), len(sq), Ptr("used", 0, 8)], heap0=heap0,
-                                            hooks={}, single=True, max_forks=8, budget=6000000, inline_depth=6)
+                                            hooks={}, single=True, max_forks=8, budget=6000000, inline_depth=9)
                     done += 1
                     lab = "%d values, %s%s%s%s" % (len(sq), label, ", unused width bytes %#x" % junk if junk else "", ", widths padded to %d" % minw if minw else "",
                                                    ", blocks of %d in %d mini-block(s)" % geo if geo != (128, 4) else "")
@@ -648,10 +648,11 @@ def check_delta_encoder(ctx, rule="R42.delta"):
         done = 0
         try:
             for label, sq in seqs:
-                heap0 = {("val", (bits // 8) * i): v for i, v in enumerate(sq)}
+                heap0 = {("out", i): 0xFF for i in range(3072)}        # a destination that held something else before
+                heap0.update({("val", (bits // 8) * i): v for i, v in enumerate(sq)})
                 cap = 4096 + len(sq) * 16
                 ret, ev, heap = sem.run(P, fn, [Ptr("val", 0, bits // 8), len(sq), Ptr("out", 0, 1), cap, Ptr("used", 0, 8)], heap0=heap0, hooks={},
-                                        single=True, max_forks=8, budget=4000000, inline_depth=6)
+                                        single=True, max_forks=8, budget=4000000, inline_depth=9)
                 done += 1
                 used = heap.get(("used", 0))
                 if ret != 0 or not isinstance(used, int):
@@ -1207,7 +1208,7 @@ def _le(v, w):
     return [(v >> (8 * k)) & 0xFF for k in range(w)]
 
 
-def check_plain(ctx, rule="R42.plain"):
+def check_plain(ctx, rule="R42.plain", encoders=True, decoders=True):
     """PLAIN, both directions, on concrete values whose bytes are all different from each other where it matters: fixed-width
     values are little-endian and back to back (INT96: three 32-bit words in order), booleans are one bit each, least
     significant bit first, padded to a byte, BYTE_ARRAY is a 4-byte little-endian length followed by the bytes,
@@ -1218,7 +1219,10 @@ def check_plain(ctx, rule="R42.plain"):
     bo = sem.field_offsets(P, "carquet_buffer")
 
     def buf0():
-        return {("buf", bo["data"]): Ptr("ob", 0, 1), ("buf", bo["size"]): 0, ("buf", bo["capacity"]): 1 << 20}
+        # a recycled buffer: whatever the previous page left behind is still there (the bytes an encoder emits may not depend on it)
+        h = {("ob", i): 0xFF for i in range(1024)}
+        h.update({("buf", bo["data"]): Ptr("ob", 0, 1), ("buf", bo["size"]): 0, ("buf", bo["capacity"]): 1 << 20})
+        return h
     fixed = (("int32", 4), ("int64", 8), ("float", 4), ("double", 8), ("int96", 12))
     # ---- encoders
     enc_cases = []
@@ -1253,7 +1257,7 @@ def check_plain(ctx, rule="R42.plain"):
     by_fn = {}
     for c in enc_cases:
         by_fn.setdefault(c[0], []).append(c)
-    for name, cases in by_fn.items():
+    for name, cases in (by_fn.items() if encoders else ()):
         fn = P.fn_opt(name, PL)
         if fn is None:
             continue
@@ -1362,7 +1366,7 @@ def check_plain(ctx, rule="R42.plain"):
     by_t = {}
     for c in dec_cases:
         by_t.setdefault(c[0], []).append(c)
-    for tname, cases in by_t.items():
+    for tname, cases in (by_t.items() if decoders else ()):
         for via in ("direct", "generic"):
             name = "carquet_decode_plain_" + tname
             fn = P.fn_opt(name, PL) if via == "direct" else generic
@@ -1401,4 +1405,257 @@ def check_plain(ctx, rule="R42.plain"):
             else:
                 ctx.ob(rule, key, P.where(fn.body), what + " (%d streams)" % done, bad is None, bad or "")
             n += done
+    return n
+
+
+def _known_bytes(heap, base, used):
+    """bytes 0..used of an output buffer after a call; untouched bytes inside a zeroed region read as 0; None where unknown"""
+    bs = [heap.get((base, i)) for i in range(used)]
+    if any(not isinstance(b, int) for b in bs):
+        zs = set()
+        for zb, zl, zh in heap.get(("\0zeroed", 0), ()):
+            if zb == base:
+                zs |= set(range(zl, zh))
+        bs = [b if isinstance(b, int) else (0 if i in zs else None) for i, b in enumerate(bs)]
+    return [None if b is None else b & 0xFF for b in bs]
+
+
+def check_delta_chain(ctx, rule="R42.delta-chain"):
+    """Own output read back (no specification involved): carquet_delta_encode_intNN on delta_sequences(), then
+    carquet_delta_decode_intNN on exactly the bytes written: the sequence comes back and every byte is consumed."""
+    P = ctx.P
+    n = 0
+    for bits in (32, 64):
+        enc = P.fn_opt("carquet_delta_encode_int%d" % bits, "src/encoding/delta.c")
+        dec = P.fn_opt("carquet_delta_decode_int%d" % bits, "src/encoding/delta.c")
+        if enc is None or dec is None:
+            continue
+        key = "delta-chain|src/encoding/delta.c:carquet_delta_decode_int%d" % bits
+        what = ("carquet_delta_decode_int%d returns what carquet_delta_encode_int%d was given, from exactly the bytes it wrote, for sequences of every "
+                "mini-block width class of the type" % (bits, bits))
+        bad, done = None, 0
+        m = (1 << bits) - 1
+        try:
+            for label, sq in delta_sequences(bits):
+                heap0 = {("out", i): 0xFF for i in range(3072)}
+                heap0.update({("val", (bits // 8) * i): v for i, v in enumerate(sq)})
+                ret, ev, heap = sem.run(P, enc, [Ptr("val", 0, bits // 8), len(sq), Ptr("out", 0, 1), 4096 + len(sq) * 16, Ptr("used", 0, 8)], heap0=heap0, hooks={},
+                                        single=True, max_forks=8, budget=4000000, inline_depth=9)
+                used = heap.get(("used", 0))
+                if ret != 0 or not isinstance(used, int):
+                    raise sem.Inconclusive("%s: the encoder returns %r, bytes written %r" % (label, ret, used))
+                bs = _known_bytes(heap, "out", used)
+                if any(b is None for b in bs):
+                    raise sem.Inconclusive("%s: some of the %d written bytes are not known" % (label, used))
+                h1 = {("in", i): b for i, b in enumerate(bs)}
+                ret2, ev2, heap2 = sem.run(P, dec, [Ptr("in", 0, 1), used, Ptr("back", 0, bits // 8), len(sq), Ptr("eaten", 0, 8)], heap0=h1, hooks={},
+                                           single=True, max_forks=8, budget=6000000, inline_depth=9)
+                done += 1
+                if bad is not None:
+                    continue
+                lab = "%d values, %s" % (len(sq), label)
+                if ret2 != 0:
+                    bad = "%s: the decoder returns %r for the encoder's %d bytes" % (lab, ret2, used)
+                    continue
+                for k in range(len(sq)):
+                    v = heap2.get(("back", k * (bits // 8)))
+                    if not isinstance(v, int):
+                        raise sem.Inconclusive("%s: value %d is not known after decoding" % (lab, k))
+                    if (v & m) != (sq[k] & m):
+                        bad = "%s: value %d comes back as %d, it was %d" % (lab, k, sgn_(v & m, bits), sq[k])
+                        break
+                if bad is None and heap2.get(("eaten", 0)) != used:
+                    bad = "%s: the decoder reports %r bytes consumed of the %d written" % (lab, heap2.get(("eaten", 0)), used)
+        except (sem.Inconclusive, KeyError) as ex:
+            if bad:
+                ctx.ob(rule, key, P.where(dec.body), what, False, bad)
+            else:
+                ctx.inconclusive(rule, key, P.where(dec.body), what, "%s: %s" % (type(ex).__name__, ex))
+                done = 0
+        else:
+            ctx.ob(rule, key, P.where(dec.body), what + " (%d sequences)" % done, bad is None, bad or "")
+        n += done
+    return n
+
+
+def check_strings_chain(ctx, rule="R42.strings-chain"):
+    """Own output read back for DELTA_LENGTH_BYTE_ARRAY and DELTA_BYTE_ARRAY: the encoder runs with the real inner DELTA coder
+    and the real output buffer; the decoder then runs on exactly the bytes appended; the strings come back byte for byte."""
+    P = ctx.P
+    n = 0
+    bo = sem.field_offsets(P, "carquet_buffer")
+    for tag, encn, decn, file_, work in (("delta-length", "carquet_delta_length_encode", "carquet_delta_length_decode", DL, False),
+                                         ("delta-strings", "carquet_delta_strings_encode", "carquet_delta_strings_decode", DS, True)):
+        enc, dec = P.fn_opt(encn, file_), P.fn_opt(decn, file_)
+        if enc is None or dec is None:
+            continue
+        key = "%s-chain|%s:%s" % (tag, file_, decn)
+        what = "%s returns, byte for byte, the strings %s was given, from exactly the bytes it appended" % (decn, encn)
+        bad, done = None, 0
+        try:
+            for strs in _string_cases():
+                heap0, items, o = {}, [], 0
+                for st in strs:
+                    items.append((o, len(st)))
+                    for j, c in enumerate(st):
+                        heap0[("str", o + j)] = c
+                    o += len(st) + 5
+                heap0.update(_ba_heap("vals", items))
+                heap0.update({("ob", i): 0xFF for i in range(1024)})
+                heap0.update({("buf", bo["data"]): Ptr("ob", 0, 1), ("buf", bo["size"]): 0, ("buf", bo["capacity"]): 1 << 20})
+                ret, ev, heap = sem.run(P, enc, [Ptr("vals", 0, 16), len(strs), Ptr("buf", 0, 1)], heap0=heap0, hooks=_alloc_hooks(), single=True,
+                                        max_forks=8, budget=6000000, inline_depth=8)
+                size = heap.get(("buf", bo["size"]))
+                lab = "strings %s" % [bytes(s_).decode() for s_ in strs[:6]]
+                if ret != 0 or not isinstance(size, int):
+                    raise sem.Inconclusive("%s: the encoder returns %r with buffer size %r" % (lab, ret, size))
+                bs = _flatten(heap, "ob", size)
+                zs = set()
+                for zb, zl, zh in heap.get(("\0zeroed", 0), ()):
+                    if zb == "ob":
+                        zs |= set(range(zl, zh))
+                bs = [0 if (b is None and i in zs) else b for i, b in enumerate(bs)]
+                if any(b is None for b in bs):
+                    raise sem.Inconclusive("%s: some of the %d appended bytes are not known" % (lab, size))
+                h1 = {("in", i): b for i, b in enumerate(bs)}
+                total = sum(len(s_) for s_ in strs)
+                args = [Ptr("in", 0, 1), size, Ptr("back", 0, 16), len(strs)] + ([Ptr("work", 0, 1), total + 8] if work else []) + [Ptr("eaten", 0, 8)]
+                ret2, ev2, heap2 = sem.run(P, dec, args, heap0=h1, hooks=_alloc_hooks(), single=True, max_forks=8, budget=6000000, inline_depth=8)
+                done += 1
+                if bad is not None:
+                    continue
+                if ret2 != 0:
+                    bad = "%s: the decoder returns %r for the encoder's %d bytes" % (lab, ret2, size)
+                    continue
+                for i, st in enumerate(strs):
+                    p, ln = heap2.get(("back", 16 * i)), heap2.get(("back", 16 * i + 8))
+                    if not isinstance(ln, int) or (ln & 0xFFFFFFFF) != len(st):
+                        bad = "%s: value %d comes back with length %r" % (lab, i, ln)
+                        break
+                    if not st:
+                        continue
+                    if not isinstance(p, Ptr) or not isinstance(p.off, int):
+                        raise sem.Inconclusive("%s: value %d points at %r" % (lab, i, p))
+                    got = [heap2.get((p.base, p.off + j)) for j in range(len(st))]
+                    if any(not isinstance(g, int) for g in got):
+                        raise sem.Inconclusive("%s: bytes of value %d are not known" % (lab, i))
+                    if [g & 0xFF for g in got] != st:
+                        bad = "%s: value %d comes back as %r" % (lab, i, bytes(g & 0xFF for g in got))
+                        break
+                if bad is None and heap2.get(("eaten", 0)) != size:
+                    bad = "%s: the decoder reports %r bytes consumed of the %d appended" % (lab, heap2.get(("eaten", 0)), size)
+        except (sem.Inconclusive, KeyError) as ex:
+            if bad:
+                ctx.ob(rule, key, P.where(dec.body), what, False, bad)
+            else:
+                ctx.inconclusive(rule, key, P.where(dec.body), what, "%s: %s" % (type(ex).__name__, ex))
+                done = 0
+        else:
+            ctx.ob(rule, key, P.where(dec.body), what + " (%d string lists)" % done, bad is None, bad or "")
+        n += done
+    return n
+
+
+def check_plain_chain(ctx, rule="R42.plain-chain"):
+    """Own output read back for PLAIN (no specification involved): encode through the real buffer code, decode exactly those bytes."""
+    P = ctx.P
+    n = 0
+    bo = sem.field_offsets(P, "carquet_buffer")
+    S = lambda t: [ord(c) for c in t]
+    cases = []      # (type name, element size for Ptr, heap of the input, encoder args after input ptr, decoder extra args, count, comparer)
+    for tname, W in (("int32", 4), ("int64", 8), ("float", 4), ("double", 8), ("int96", 12)):
+        for vals in _plain_values(W):
+            if W == 12:
+                h = {("val", 12 * i + 4 * j): w_ for i, v in enumerate(vals) for j, w_ in enumerate(v)}
+                want = [b for v in vals for w_ in v for b in _le(w_, 4)]
+            else:
+                h = {("val", W * i): v for i, v in enumerate(vals)}
+                want = [b for v in vals for b in _le(v, W)]
+            cases.append((tname, 4 if W == 12 else W, h, [len(vals)], [], len(vals), ("flat", want)))
+    for vals in _plain_values("boolean"):
+        cases.append(("boolean", 1, {("val", i): v for i, v in enumerate(vals)}, [len(vals)], [], len(vals), ("bools", vals)))
+    for strs in ([S("abc")], [S(""), S("parquet"), S("x")], [S("a" * 300), S(""), S("bc")]):
+        h, items, o = {}, [], 0
+        for st in strs:
+            items.append((o, len(st)))
+            for j, c in enumerate(st):
+                h[("str", o + j)] = c
+            o += len(st) + 3
+        h.update(_ba_heap("val", items))
+        cases.append(("byte_array", 16, h, [len(strs)], [], len(strs), ("strs", strs)))
+    for L, cnt in ((1, 3), (5, 2), (16, 3)):
+        data = [(17 * i + 3) & 0xFF for i in range(L * cnt)]
+        cases.append(("fixed_byte_array", 1, {("val", i): b for i, b in enumerate(data)}, [cnt, L], [L], cnt, ("flat", data)))
+    by_t = {}
+    for c in cases:
+        by_t.setdefault(c[0], []).append(c)
+    for tname, cs in by_t.items():
+        enc, dec = P.fn_opt("carquet_encode_plain_" + tname, PL), P.fn_opt("carquet_decode_plain_" + tname, PL)
+        if enc is None or dec is None:
+            continue
+        key = "plain-chain|%s:carquet_decode_plain_%s" % (PL, tname)
+        what = "carquet_decode_plain_%s returns what carquet_encode_plain_%s was given, from exactly the bytes it appended" % (tname, tname)
+        bad, done = None, 0
+        try:
+            for _, esz, h, eargs, dargs, cnt, (kind, want) in cs:
+                hh = {("ob", i): 0xFF for i in range(1024)}
+                hh.update(h)
+                hh.update({("buf", bo["data"]): Ptr("ob", 0, 1), ("buf", bo["size"]): 0, ("buf", bo["capacity"]): 1 << 20})
+                ret, ev, heap = sem.run(P, enc, [Ptr("val", 0, esz)] + eargs + [Ptr("buf", 0, 1)], heap0=hh, hooks={}, single=True, max_forks=8, budget=3000000, inline_depth=6)
+                size = heap.get(("buf", bo["size"]))
+                if ret != 0 or not isinstance(size, int):
+                    raise sem.Inconclusive("the encoder returns %r with buffer size %r" % (ret, size))
+                bs = _flatten(heap, "ob", size)
+                zs = set()
+                for zb, zl, zh in heap.get(("\0zeroed", 0), ()):
+                    if zb == "ob":
+                        zs |= set(range(zl, zh))
+                bs = [0 if (b is None and i in zs) else b for i, b in enumerate(bs)]
+                if any(b is None for b in bs):
+                    raise sem.Inconclusive("some of the %d appended bytes are not known" % size)
+                h1 = {("in", i): b for i, b in enumerate(bs)}
+                ret2, ev2, heap2 = sem.run(P, dec, [Ptr("in", 0, 1), size, Ptr("out", 0, esz), cnt] + dargs, heap0=h1, hooks={}, single=True, max_forks=8,
+                                           budget=3000000, inline_depth=6)
+                done += 1
+                if bad is not None:
+                    continue
+                lab = "%d value(s)" % cnt
+                if ret2 != size:
+                    bad = "%s: the decoder returns %r for the encoder's %d bytes" % (lab, ret2, size)
+                    continue
+                if kind == "flat":
+                    got = _flatten(heap2, "out", len(want))
+                    if any(b is None for b in got):
+                        raise sem.Inconclusive("some decoded bytes are not known")
+                    if got != want:
+                        k = next(i for i, (x, y) in enumerate(zip(got, want)) if x != y)
+                        bad = "%s: byte %d of the decoded values is %#x, it was %#x" % (lab, k, got[k], want[k])
+                elif kind == "bools":
+                    got = [heap2.get(("out", i)) for i in range(cnt)]
+                    if any(not isinstance(g, int) for g in got):
+                        raise sem.Inconclusive("some decoded booleans are not known")
+                    if [int(bool(g & 0xFF)) for g in got] != want:
+                        bad = "booleans %s come back as %s" % (want[:12], [int(bool(g & 0xFF)) for g in got][:12])
+                else:
+                    for i, st in enumerate(want):
+                        p, ln = heap2.get(("out", 16 * i)), heap2.get(("out", 16 * i + 8))
+                        if not isinstance(ln, int) or (ln & 0xFFFFFFFF) != len(st):
+                            bad = "%s: value %d comes back with length %r, it had %d" % (lab, i, ln, len(st))
+                            break
+                        if st:
+                            if not (isinstance(p, Ptr) and isinstance(p.off, int)):
+                                raise sem.Inconclusive("value %d points at %r" % (i, p))
+                            got = [h1.get((p.base, p.off + j)) if p.base == "in" else heap2.get((p.base, p.off + j)) for j in range(len(st))]
+                            if got != st:
+                                bad = "%s: value %d comes back as %r" % (lab, i, bytes((g or 0) & 0xFF for g in got)[:20])
+                                break
+        except (sem.Inconclusive, KeyError) as ex:
+            if bad:
+                ctx.ob(rule, key, P.where(dec.body), what, False, bad)
+            else:
+                ctx.inconclusive(rule, key, P.where(dec.body), what, "%s: %s" % (type(ex).__name__, ex))
+                done = 0
+        else:
+            ctx.ob(rule, key, P.where(dec.body), what + " (%d cases)" % done, bad is None, bad or "")
+        n += done
     return n
